@@ -65,7 +65,7 @@ pub fn emit_eval_case(p: &Prog, rng: &mut Rng, out: &mut Out, kind: &str) {
     // native oracle for Dot / Matmul: an independent reference written from the NumPy rules
     for (n, v) in nodes.iter().zip(vals.iter()) {
         let op = n.get_operation();
-        if !matches!(op, Operation::Dot | Operation::Matmul) { continue; }
+        if !matches!(op, Operation::Dot | Operation::Matmul | Operation::Gemm(_, _)) { continue; }
         let deps = n.get_node_dependencies();
         let (ta, tb, tr) = (deps[0].get_type().unwrap(), deps[1].get_type().unwrap(), n.get_type().unwrap());
         if !ta.is_array() || !tb.is_array() { continue; }
@@ -94,12 +94,14 @@ pub fn emit_eval_case(p: &Prog, rng: &mut Rng, out: &mut Out, kind: &str) {
                     exp.push(m(acc));
                 } } }
             } else {
-                // matmul with NumPy batch broadcasting; rank-1 operands get a unit dimension
+                // matmul with NumPy batch broadcasting; rank-1 operands get a unit dimension;
+                // Gemm(ta, tb) multiplies op(a) op(b) where op transposes the last two dimensions
+                let (tra, trb) = if let Operation::Gemm(x, y) = op { (x, y) } else { (false, false) };
                 let (mut xa, mut xb) = (sa.clone(), sb.clone());
                 if xa.len() == 1 { xa.insert(0, 1); }
                 if xb.len() == 1 { xb.push(1); }
                 let (ra, rb) = (xa.len(), xb.len());
-                let (n_, kk_, m_) = (xa[ra - 2], xa[ra - 1], xb[rb - 1]);
+                let (n_, kk_, m_) = (if tra { xa[ra - 1] } else { xa[ra - 2] }, if tra { xa[ra - 2] } else { xa[ra - 1] }, if trb { xb[rb - 2] } else { xb[rb - 1] });
                 let (ba, bb) = (xa[..ra - 2].to_vec(), xb[..rb - 2].to_vec());
                 let rank = std::cmp::max(ba.len(), bb.len());
                 let pad = |v: &Vec<u64>| -> Vec<u64> { let mut r = vec![1u64; rank - v.len()]; r.extend(v.iter()); r };
@@ -115,7 +117,11 @@ pub fn emit_eval_case(p: &Prog, rng: &mut Rng, out: &mut Out, kind: &str) {
                     let (oa, ob) = (off(&pa) * n_ * kk_, off(&pb) * kk_ * m_);
                     for i in 0..n_ { for j in 0..m_ {
                         let mut acc: u128 = 0;
-                        for q in 0..kk_ { acc = acc.wrapping_add(a[(oa + i * kk_ + q) as usize].wrapping_mul(b[(ob + q * m_ + j) as usize])); }
+                        for q in 0..kk_ {
+                            let ai = if tra { oa + q * n_ + i } else { oa + i * kk_ + q };
+                            let bi2 = if trb { ob + j * kk_ + q } else { ob + q * m_ + j };
+                            acc = acc.wrapping_add(a[ai as usize].wrapping_mul(b[bi2 as usize]));
+                        }
                         exp.push(m(acc));
                     } }
                 }
@@ -128,8 +134,43 @@ pub fn emit_eval_case(p: &Prog, rng: &mut Rng, out: &mut Out, kind: &str) {
     }
 }
 
+/// every pattern of batch dimensions of a Gemm / Matmul pair: equal, missing on one side, size 1 on
+/// one side (also with the operand of full rank), crossed size-1 dimensions
+fn batch_pattern_program(rng: &mut Rng, idx: usize) -> Prog {
+    let ctx = ciphercore_base::graphs::create_context().unwrap();
+    let g = ctx.create_graph().unwrap();
+    let st = *rng.pick(&ALL_ST);
+    let (n, k, m) = (1 + rng.below(2), 2 + rng.below(2), 1 + rng.below(3));
+    let (d, e) = (2 + rng.below(2), 2 + rng.below(2));
+    let pats: Vec<(Vec<u64>, Vec<u64>)> = vec![
+        (vec![1], vec![d]), (vec![d], vec![1]), (vec![d], vec![d]), (vec![], vec![d]), (vec![d], vec![]),
+        (vec![d, 1], vec![1, e]), (vec![1, e], vec![d, 1]), (vec![1, 1], vec![d, e]), (vec![d, e], vec![1, 1]),
+        (vec![d, 1], vec![d, e]), (vec![1, e], vec![d, e]), (vec![d, e], vec![e]), (vec![1], vec![d, e]), (vec![d, 1], vec![e]),
+    ];
+    let (ba, bb) = pats[idx % pats.len()].clone();
+    let gemm = (idx / pats.len()) % 2 == 0;
+    let (ta, tb) = if gemm { (rng.chance(1, 2), rng.chance(1, 2)) } else { (false, false) };
+    let sa = [ba, if ta { vec![k, n] } else { vec![n, k] }].concat();
+    let sb = [bb, if tb { vec![m, k] } else { vec![k, m] }].concat();
+    let (t0, t1) = (array_type(sa, st), array_type(sb, st));
+    let x = g.input(t0.clone()).unwrap();
+    let y = g.input(t1.clone()).unwrap();
+    let o = if gemm { x.gemm(y, ta, tb) } else { x.matmul(y) }.unwrap();
+    g.set_output_node(o).unwrap();
+    g.finalize().unwrap();
+    ctx.set_main_graph(g.clone()).unwrap();
+    ctx.finalize().unwrap();
+    Prog { ctx, g, input_types: vec![t0, t1], attempts: vec![] }
+}
+
 pub fn run(tier: &str, seed: u64, out: &mut Out) {
     let mut rng = Rng::new(seed ^ 0xC10);
+    let n_pat = match tier { "thorough" => 28 * 5, "search" => 28 * 10, _ => 28 };
+    for i in 0..n_pat {
+        let p = batch_pattern_program(&mut rng, i);
+        out.stat("stream:batch-patterns");
+        emit_eval_case(&p, &mut rng, out, "eval_batch_pattern");
+    }
     let (n_single, n_multi) = match tier { "thorough" => (1500, 600), "search" => (3000, 1000), _ => (260, 90) };
     // one-operation graphs over every scalar type
     for i in 0..n_single {
